@@ -7,7 +7,7 @@ _COMMON_NOTE = ('Trusted: CPython ast, the gtverif engine and the rule tables wr
 def _t(level, technique, note=''):
     return {'level': 'Structural necessary conditions decided exactly by custom static analysis for all inputs; the behaviour itself is not decided. ' + level
             + ' On the call-graph closure of the operations analysed, additionally: no cross-call memo (R-STATE c), identity-bearing encodings injective -- names of composite states, __eq__, look-up and memo keys, input word unmodified (R-INJ), declared NewType sorts State/Symbol/Direction respected (R-SORT), class invariants of the automata constructed or taken as operands asserted in canonical form and nothing demanded of the value of a state or symbol (R-BUILD.inv), operands untouched by every function reached without passing through a procedure (R-EFFECT a), epsilon fresh for the alphabet / forwarded to callees / never appended to words (R-EPS const, default, word).',
-            'technique': technique + ' + nominal sort check of the NewTypes + injectivity algebra for identity encodings, both on the call-graph closure', 'note': _COMMON_NOTE + note}
+            'technique': technique + ' + nominal sort check of the NewTypes + injectivity algebra for identity encodings, both on the call-graph closure; small case-splitting functions decided by exhaustive case analysis with the analyser\'s own finite-model evaluator over the syntax tree (no repository code is imported or run)', 'note': _COMMON_NOTE + note}
 
 
 TEXT = {
